@@ -54,132 +54,138 @@ def cfg_text(universe: str, part: int, parts: int, known, inv: str) -> str:
     )
 
 
-_JOB = {}
+def gen_one(universe, part, parts, known, tags_file, pages_file, inv):
+    env = {"TAGS_FILE": tags_file}
+    if pages_file:
+        env["PAGES_FILE"] = pages_file
+    return tlc("Gen_ParserStruct", "g.cfg", cfg_text=cfg_text(universe, part, parts, known, inv), workers=1,
+               timeout=3000, env=env)
 
 
-def gen_job(jobs):
-    """jobs: list of (universe, part, parts, known, tags_file, pages_file, inv)."""
+def trace_items(known, tags_file, items):
+    """items: [(idx, page, real)] -> (TLCResult, {idx: bad-record})"""
+    with Scratch("c03t-") as d:
+        tf = d / "batch.json"
+        tf.write_text(json.dumps({"known": sorted(known), "cases": [{"page": p, "real": r} for _, p, r in items]}))
+        r = tlc("Trace_ParserStruct", "t.cfg",
+                cfg_text="SPECIFICATION Spec\nCONSTANT Tags <- TagsFromFile\nINVARIANT Verdict\nCHECK_DEADLOCK FALSE\n",
+                workers=1, timeout=3000, env={"TRACE_FILE": str(tf), "TAGS_FILE": tags_file})
+    v = r.tagged("VERDICT")
+    if not v or v[0]["consumed"] != len(items):
+        raise common.TLCError("Trace_ParserStruct did not consume its batch")
+    return r, {items[b["i"] - 1][0]: b for b in v[0]["bad"]}
+
+
+def pipeline_job(jobs):
+    """One worker does everything for its share of a universe: TLC enumerates and renders the
+    structures (checking the law), the real parser parses them, TLC judges the recorded trees.
+    Only a summary travels back to the parent."""
+    common.use_repo()
     out = []
     for universe, part, parts, known, tags_file, pages_file, inv in jobs:
-        env = {"TAGS_FILE": tags_file}
-        if pages_file:
-            env["PAGES_FILE"] = pages_file
-        r = tlc("Gen_ParserStruct", "g.cfg", cfg_text=cfg_text(universe, part, parts, known, inv), workers=1,
-                timeout=3000, env=env)
-        out.append((universe, part, r.distinct, r.generated, r.wall, r.cases))
+        g = gen_one(universe, part, parts, known, tags_file, pages_file, inv)
+        cases = g.cases
+        summ = {"universe": universe, "gen": (g.distinct, g.generated, g.wall), "n": len(cases), "cov": {}, "shapes": set(),
+                "trace": [0, 0, 0.0], "bad": [], "drift": 0, "drift_samples": [], "nolaw": [], "skipped": len(g.tagged("SKIP")),
+                "exceptions": [], "sample": None}
+        items = []
+        with Scratch("c03-") as d:
+            ctx = ptree2.new_ctx(d)
+            try:
+                for i, c in enumerate(cases):
+                    for label in c["cov"]:
+                        summ["cov"][label] = summ["cov"].get(label, 0) + 1
+                    if not c.get("law", True):
+                        summ["nolaw"].append(ptree2.concretise(c["text"]))
+                    text = ptree2.concretise(c["text"])
+                    try:
+                        t = ptree2.node(ptree2.parse(ctx, text))
+                    except Exception as e:  # noqa: BLE001
+                        summ["exceptions"].append({"text": text, "exception": repr(e), "page": c["page"]})
+                        continue
+                    items.append((i, c["page"], t))
+            finally:
+                ctx.db_conn.close()
+        real = {i: t for i, _, t in items}
+        bad = {}
+        for k in range(0, len(items), 500):
+            r, b = trace_items(known, tags_file, items[k:k + 500])
+            summ["trace"][0] += r.distinct
+            summ["trace"][1] += r.generated
+            summ["trace"][2] += r.wall
+            bad.update(b)
+        for i, _, t in items:
+            c = cases[i]
+            summ["shapes"].add(ptree2.shape(t))
+            text = ptree2.concretise(c["text"])
+            if i in bad:
+                b = bad[i]
+                summ["bad"].append({"text": text, "expected": ptree2.show(b["expected"]), "got": ptree2.show(t),
+                                    "page": c["page"], "devs": sorted(b["devs"]),
+                                    "cls": classify(b["expected"], t, universe)})
+            elif t != c["mt"]:
+                summ["drift"] += 1
+                if len(summ["drift_samples"]) < 2:
+                    summ["drift_samples"].append({"text": text, "twin": ptree2.show(c["mt"]), "real": ptree2.show(t)})
+        if cases:
+            summ["sample"] = ptree2.concretise(cases[len(cases) // 2]["text"])
+        out.append(summ)
     return out
 
 
-def run_gens(o: Outcome, plan: list, known, tags_file: str, pages_file: str | None = None) -> dict:
-    """plan: [(universe, parts, invariant)]; all TLC processes of all universes share one pool."""
+def run_plan(o: Outcome, plan: list, known, tags_file: str, pages_file: str | None = None) -> dict:
+    """plan: [(universe, parts, invariant)]; all jobs of all universes share one process pool."""
     jobs = []
     for universe, parts, inv in plan:
         jobs += [(universe, p, parts, sorted(known), tags_file, pages_file if universe == "FILE" else None, inv)
                  for p in range(parts)]
     jobs.sort(key=lambda j: 0 if j[0] in ("GQ", "GT") else 1)
-    res = pmap(gen_job, jobs, chunk=1)
-    cases = {u: [] for u, _, _ in plan}
-    tot = {u: common.TLCResult("", 0, 0.0) for u, _, _ in plan}
-    for universe, part, distinct, generated, wall, cs in res:
-        t = tot[universe]
-        t.distinct += distinct
-        t.generated += generated
-        t.wall = max(t.wall, wall)
-        for c in cs:
-            c["u"] = universe
-        cases[universe] += cs
+    res = pmap(pipeline_job, jobs, chunk=1)
+    per = {}
+    cov = {}
+    for s in res:
+        u = s["universe"]
+        a = per.setdefault(u, {"n": 0, "gen": common.TLCResult("", 0, 0.0), "trace": common.TLCResult("", 0, 0.0), "skipped": 0, "sample": None})
+        a["n"] += s["n"]
+        a["skipped"] += s["skipped"]
+        a["gen"].distinct += s["gen"][0]
+        a["gen"].generated += s["gen"][1]
+        a["gen"].wall = max(a["gen"].wall, s["gen"][2])
+        a["trace"].distinct += s["trace"][0]
+        a["trace"].generated += s["trace"][1]
+        a["trace"].wall = max(a["trace"].wall, s["trace"][2])
+        a["sample"] = a["sample"] or s["sample"]
+        for k, v in s["cov"].items():
+            cov[k] = cov.get(k, 0) + v
+        o.evaluations += s["n"]
+        o.traces += s["n"] - len(s["exceptions"])
+        for sh in s["shapes"]:
+            o.shape(sh)
+        origin = "V" if u == "FILE" else "G"
+        if s["nolaw"]:
+            raise common.TLCError(f"{len(s['nolaw'])} random page(s) violate the model's own law, e.g. {s['nolaw'][0]!r}")
+        for e in s["exceptions"]:
+            o.violation({"origin": origin, "universe": u, "text": e["text"], "page": e["page"]},
+                        f"parse({e['text']!r}) raised {e['exception']}", cls="exception")
+        for b in s["bad"]:
+            case = {"origin": origin, "universe": u, "text": b["text"], "expected": b["expected"], "got": b["got"], "page": b["page"]}
+            o.classify(case, f"parse({b['text']!r}) does not have the written structure", b["devs"], cls=b["cls"])
+        o.drift_count += max(0, s["drift"] - len(s["drift_samples"]))
+        for dsm in s["drift_samples"]:
+            o.note_drift(dsm)
     for universe, parts, inv in plan:
-        o.add_tlc(f"Gen_ParserStruct[{universe}] law+cases x{parts}", tot[universe])
-    return cases
+        if universe in per:
+            o.add_tlc(f"Gen_ParserStruct[{universe}] law+cases x{parts}", per[universe]["gen"])
+            o.add_tlc(f"Trace_ParserStruct[{universe}]", per[universe]["trace"])
+    return {"per": per, "cov": cov}
 
 
-def run_gen(o, universe, parts, known, tags_file, pages_file=None, inv="GenInv"):
-    return run_gens(o, [(universe, parts, inv)], known, tags_file, pages_file)[universe]
-
-
-# ---------------------------------------------------------------------------
-# real parser
-# ---------------------------------------------------------------------------
-def parse_chunk(chunk):
-    """chunk: list of (idx, text) -> (idx, abstract tree | {'exception': ...}, leftover stack)."""
-    common.use_repo()
-    out = []
-    with Scratch("c03-") as d:
-        ctx = ptree2.new_ctx(d)
-        try:
-            for idx, text in chunk:
-                try:
-                    t = ptree2.node(ptree2.parse(ctx, text))
-                except Exception as e:  # noqa: BLE001
-                    t = {"exception": repr(e)}
-                out.append((idx, t))
-        finally:
-            ctx.db_conn.close()
-    return out
-
-
-def trace_chunk(chunk):
-    """chunk: (known, tags_file, [(idx, page, real)]) lists -> [(idx, bad-record)]"""
-    out = []
-    for known, tags_file, items in chunk:
-        with Scratch("c03t-") as d:
-            tf = d / "batch.json"
-            tf.write_text(json.dumps({"known": sorted(known), "cases": [{"page": p, "real": r} for _, p, r in items]}))
-            r = tlc("Trace_ParserStruct", "t.cfg",
-                    cfg_text="SPECIFICATION Spec\nCONSTANT Tags <- TagsFromFile\nINVARIANT Verdict\nCHECK_DEADLOCK FALSE\n",
-                    workers=1, timeout=3000, env={"TRACE_FILE": str(tf), "TAGS_FILE": tags_file})
-        v = r.tagged("VERDICT")
-        if not v or v[0]["consumed"] != len(items):
-            raise common.TLCError("Trace_ParserStruct did not consume its batch")
-        out.append((r.distinct, r.generated, r.wall, [(items[b["i"] - 1][0], b) for b in v[0]["bad"]]))
-    return out
-
-
-def validate(o: Outcome, cases: list, known, tags_file: str, origin: str, chunk_size: int = 600):
-    texts = [(i, ptree2.concretise(c["text"])) for i, c in enumerate(cases)]
-    real = dict(pmap(parse_chunk, texts))
-    items = []
-    for i, c in enumerate(cases):
-        o.evaluations += 1
-        t = real[i]
-        if "exception" in t:
-            o.violation({"origin": origin, "universe": c.get("u"), "text": texts[i][1], "page": c["page"]},
-                        f"parse({texts[i][1]!r}) raised {t['exception']}", cls="exception")
-            continue
-        items.append((i, c["page"], t))
-    batches = [(sorted(known), tags_file, items[k: k + chunk_size]) for k in range(0, len(items), chunk_size)]
-    res = pmap(trace_chunk, batches, chunk=1)
-    tot = common.TLCResult("", 0, 0.0)
-    bad = {}
-    for distinct, generated, wall, bs in res:
-        tot.distinct += distinct
-        tot.generated += generated
-        tot.wall = max(tot.wall, wall)
-        bad.update(dict(bs))
-    o.add_tlc(f"Trace_ParserStruct[{origin}] x{len(batches)}", tot)
-    o.traces += len(items)
-    for i, c in enumerate(cases):
-        if i not in real or "exception" in real[i]:
-            continue
-        text = texts[i][1]
-        o.shape(ptree2.shape(real[i]))
-        if i in bad:
-            b = bad[i]
-            case = {"origin": "V" if c.get("u") == "FILE" else "G", "universe": c.get("u"), "text": text,
-                    "expected": ptree2.show(b["expected"]), "got": ptree2.show(real[i]), "page": c["page"]}
-            why = f"parse({text!r}) does not have the written structure"
-            o.classify(case, why, sorted(b["devs"]), cls=classify(b["expected"], real[i], c))
-        elif real[i] != c["mt"]:
-            o.note_drift({"text": text, "twin": ptree2.show(c["mt"]), "real": ptree2.show(real[i])})
-    return real, bad
-
-
-def classify(exp, got, c) -> str:
+def classify(exp, got, universe) -> str:
     """Coarse class of a disagreement (for grouping replays only)."""
     ek, gk = sorted(ptree2.kinds(exp)), sorted(ptree2.kinds(got))
     if ek != gk:
-        return f"{c.get('u')}:kinds -{','.join(sorted(set(ek) - set(gk)))} +{','.join(sorted(set(gk) - set(ek)))}"
-    return f"{c.get('u')}:same-kinds"
+        return f"{universe}:kinds -{','.join(sorted(set(ek) - set(gk)))} +{','.join(sorted(set(gk) - set(ek)))}"
+    return f"{universe}:same-kinds"
 
 
 # ---------------------------------------------------------------------------
@@ -328,30 +334,20 @@ def run(tier: str) -> int:
         grid = "GT" if thorough else "GQ"
         plan = [(grid, 32 if thorough else 16, "GenInv"), ("EL", 3, "GenInv"), ("CALL", 3, "GenInv"),
                 ("NEST", 3, "GenInv"), ("FILE", 16 if thorough else 8, "GenInvF")]
-        bycase = run_gens(o, plan, known, tags_file, str(pf))
-        nolaw = [c for c in bycase["FILE"] if not c["law"]]
-        if nolaw:
-            raise common.TLCError(f"{len(nolaw)} random page(s) violate the model's own law, e.g. "
-                                  f"{ptree2.concretise(nolaw[0]['text'])!r}")
-        cov = {}
-        for cs in bycase.values():
-            for c in cs:
-                for label in c["cov"]:
-                    cov[label] = cov.get(label, 0) + 1
-        o.extra["action_coverage"] = dict(sorted(cov.items()))
-        o.extra["cases_per_universe"] = {u: len(cs) for u, cs in bycase.items()}
+        agg = run_plan(o, plan, known, tags_file, str(pf))
+        o.extra["action_coverage"] = dict(sorted(agg["cov"].items()))
+        o.extra["cases_per_universe"] = {u: a["n"] for u, a in agg["per"].items()}
+        o.extra["random_pages_outside_the_preconditions"] = agg["per"].get("FILE", {}).get("skipped", 0)
         # Demo: TLC itself finds the counterexample with the deviations switched on
         demo = tlc("Gen_ParserStruct", "Demo_ParserStruct_asis.cfg", workers=1, check=False, env={"TAGS_FILE": tags_file})
         o.add_tlc("Demo_ParserStruct_asis (counterexample expected)", demo)
         o.extra["demo_asis_counterexample"] = bool(demo.invariant_violated)
         if not demo.invariant_violated:
             raise common.TLCError("Demo_ParserStruct_asis lost its counterexample")
-        allcases = [c for u, _, _ in plan for c in bycase[u]]
-        validate(o, allcases, known, tags_file, "G/V")
         o.exhaustive = True
-        for u, _, _ in plan:
-            if bycase[u]:
-                o.sample({"universe": u, "text": ptree2.concretise(bycase[u][len(bycase[u]) // 2]["text"])})
+        for u, a in agg["per"].items():
+            if a["sample"]:
+                o.sample({"universe": u, "text": a["sample"]})
     return o.finish()
 
 
@@ -365,8 +361,7 @@ def replay(path: str) -> int:
         ctx.db_conn.close()
         tags_file = str(d / "tags.json")
         Path(tags_file).write_text(json.dumps(tag_table()))
-        res = trace_chunk([([], tags_file, [(0, c["page"], t)])])
-    bad = res[0][3]
+        _, bad = trace_items([], tags_file, [(0, c["page"], t)])
     print("text    :", repr(c["text"]))
     print("expected:\n" + c["expected"])
     print("got now :\n" + ptree2.show(t))
@@ -385,7 +380,7 @@ def selftest() -> int:
         pf = d / "pages.json"
         pf.write_text(json.dumps([page]))
         o = Outcome(PID, "quick")
-        cs = run_gen(o, "FILE", 1, set(), tags_file, str(pf), inv="GenInvF")
+        cs = gen_one("FILE", 0, 1, [], tags_file, str(pf), "GenInvF").cases
         text = ptree2.concretise(cs[0]["text"])
         ctx = ptree2.new_ctx(d)
         good = ptree2.node(ptree2.parse(ctx, text))
@@ -414,10 +409,9 @@ def selftest() -> int:
         b3 = copy.deepcopy(good)
         first(b3, "TABLE")["attrs"].append({"n": "zz", "v": "1"})
         variants.append(("extra attribute", b3))
-        res = trace_chunk([([], tags_file, [(i, page, t) for i, (_, t) in enumerate(variants)])])
-    badidx = {i for i, _ in res[0][3]}
+        _, bad = trace_items([], tags_file, [(i, page, t) for i, (_, t) in enumerate(variants)])
+    badidx = set(bad)
     print("text:", repr(text))
     for i, (name, _) in enumerate(variants):
         print(f"  {name}: {'rejected' if i in badidx else 'accepted'}")
-    ok = badidx == {1, 2, 3} or (0 in badidx and False)
     return 0 if badidx == {1, 2, 3} else 1
